@@ -121,7 +121,7 @@ PROPS.update({
     "C02": h2prop(["TurnModel.Props.C02"], ["pdata", "pconn", "state"], ["dind", "cdat", "catt", "cclosed"], []),
     "C03": dict(h2prop(["TurnModel.Props.C03", "TurnModel.Props.C03Nonce"],
                        ["m:alloc", "m:refresh", "m:perm", "m:bind", "m:connect", "m:cbind", "state", "snv", "lnv"],
-                       ["resp"], ["nonce-window", "nonce-foreign-accepted", "nonce-key-not-random"],
+                       ["resp"], ["nonce-window", "nonce-foreign-accepted", "nonce-key-not-random", "unsigned-attribute-honoured"],
                        ["the MAC of the nonce managers is a parameter of the nonce theorems; harness H3 supplies the real HMAC of the decoded timestamp as an oracle entry per operation",
                         "MESSAGE-INTEGRITY verification itself is pion/stun's (exercised for real, modelled as the fact macOK)"]),
                 harnesses=["H2", "H3"]),
